@@ -42,7 +42,7 @@ var Check = &run.Check{
 	Rule: "case = generated project: pom.xml (even index; 0-15 <dependency> in the project-level <dependencies>, children groupId/artifactId/version/scope/type/optional/classifier/exclusions in any order, " +
 		"comments, padded values, properties, dependencyManagement / plugin / profile dependencies, parent, reporting/build javadoc <links><link>, properties and ciManagement configuration with elements named like HTML void elements (link, param, base, meta, input, ...), licenses, scm, entity references, in any order before and after) or build.gradle (odd index; one dependencies closure with 0-15 statements in " +
 		"single-quoted, double-quoted, ${}-interpolated-version, parenthesised and parenthesised-with-closure string notation under 14 configurations, plus project(), fileTree() and map notation in command and " +
-		"parenthesised form; buildscript/plugins/apply/ext/repositories/configurations/android/test/task/jar blocks around; every script first passes coca's Groovy parser) + 0-6 Java files (class/interface, few " +
+		"parenthesised form; 4-space/tab/2-space indentation, no indentation at all, or closures closed in column one; buildscript/plugins/apply/ext/repositories/configurations/android/test/task/jar blocks around; every script first passes coca's Groovy parser) + 0-6 Java files (class/interface, few " +
 		"enum/annotation types; main and test roots) importing a chosen subset of the declared groups (single-type, on-demand, static, group inside a longer package) plus near-miss and unrelated imports; " +
 		"observed: deps.AnalysisMaven / deps.AnalysisGradleString, deps.DepAnalysisApp.AnalysisPath (nodes built as the dep main builds them), and for every Nth case the table printed by `coca-dep deps -p .`; " +
 		"non-trivial = >= 3 declared string-notation entries, at least one imported and one not imported, and >= 2 notations (gradle) / an entry with optional children (pom); distinct = hash of " +
@@ -242,6 +242,13 @@ func runCase(c *run.Ctx, o *run.Outcome) {
 			}
 		}
 		o.Count("other_section_entries_planted", len(b.Elsewhere))
+		if b.Flat {
+			o.Count("gradle_scripts_without_indentation", 1)
+		}
+		if b.ClosureBraceCol1 > 0 {
+			o.Count("gradle_scripts_with_closure_closed_in_column_one", 1)
+			o.Count("gradle_closures_closed_in_column_one", b.ClosureBraceCol1)
+		}
 	}
 	o.Count("declared_string_entries", nDeclared)
 	o.Count("expected_unused_entries", len(expUnused))
